@@ -416,10 +416,15 @@ pub fn make_module() -> KMap {
                 let l = l.clone();
                 let f = f.clone();
 
-                for value in l.data_mut().iter_mut() {
-                    *value = match ctx.vm.call_function(f.clone(), value.clone()) {
-                        Ok(result) => result,
-                        Err(error) => return Err(error),
+                // The function could access the list, so the list isn't kept borrowed while it's called
+                let len = l.len();
+                for index in 0..len {
+                    let Some(value) = l.data().get(index).cloned() else {
+                        break;
+                    };
+                    let result = ctx.vm.call_function(f.clone(), value)?;
+                    if let Some(target) = l.data_mut().get_mut(index) {
+                        *target = result;
                     }
                 }
 
